@@ -170,6 +170,12 @@ func (i *insertOnUpdateExecutor) beforeImage(ctx context.Context) (*types.Record
 		return nil, err
 	}
 	nameColumnsOfTable(i.parserCtx.InsertStmt, metaData)
+	// every row must be one the image queries can find: by the values it gives for some unique index. A row that
+	// gives none (its key is left to the database and it names no other unique value) would be written without
+	// image and lock beside rows that have them.
+	if with, total, err := i.rowsWithUniqueValues(i.parserCtx.InsertStmt, *metaData, i.execContext.NamedValues); err == nil && with > 0 && with < total {
+		return nil, fmt.Errorf("not support: %d of the %d rows of the statement give no value of a unique index, they cannot be identified", total-with, total)
+	}
 	selectSQL, selectArgs, err := i.buildBeforeImageSQL(i.parserCtx.InsertStmt, *metaData, i.execContext.NamedValues)
 	if err != nil {
 		return nil, err
@@ -267,6 +273,43 @@ func (i *insertOnUpdateExecutor) buildBeforeImageSQL(insertStmt *ast.InsertStmt,
 	}
 	log.Infof("build select sql by insert on update sourceQuery, sql %s", sql.String())
 	return sql.String(), selectArgs, nil
+}
+
+// rowsWithUniqueValues tells how many of the rows of the statement give the values of some unique index (the
+// primary key is one): those are the rows the image queries can look up, and the only ones that can meet a row
+// that exists. NULL, DEFAULT, an expression, and 0 for an AUTO_INCREMENT column are not values given.
+func (i *insertOnUpdateExecutor) rowsWithUniqueValues(insertStmt *ast.InsertStmt, metaData types.TableMeta, args []driver.NamedValue) (with, total int, err error) {
+	paramMap, insertNum, err := i.buildBeforeImageSQLParameters(insertStmt, args, metaData)
+	if err != nil {
+		return 0, 0, err
+	}
+	for j := 0; j < insertNum; j++ {
+		for _, index := range metaData.Indexs {
+			if index.NonUnique || isIndexValueNull(index, paramMap, j) {
+				continue
+			}
+			given := true
+			for _, columnMeta := range index.Columns {
+				parameters, ok := paramMap[columnMeta.ColumnName]
+				if !ok || j >= len(parameters) {
+					continue // (the column's default)
+				}
+				switch value := parameters[j].Value.(type) {
+				case ast.FuncCallExpr, *ast.FuncCallExpr, ast.DefaultExpr, *ast.DefaultExpr:
+					given = false
+				default:
+					if columnMeta.Autoincrement && isZeroKey(value) {
+						given = false
+					}
+				}
+			}
+			if given {
+				with++
+				break
+			}
+		}
+	}
+	return with, insertNum, nil
 }
 
 // buildBeforeImageSQLParameters build the SQL parameters to query before image data
